@@ -127,4 +127,99 @@ theorem loop_step_is_tree_node (s : KSrc) (t : Nat) (c : Cfg) (o : SOp) (visits 
     · show (step s t c).2.filterMap visitOf = _
       rw [hstep]; simp [stepRest, hpc, hlp, hcv', visitOf]
 
+
+/-! ## `fold` -/
+
+/-- the fold closure of the model: the accumulator is the wrapping sum of the payloads -/
+def sumG (s : KSrc) : Nat → Nat → Nat := fun acc p => add64 acc (s.valAt p)
+
+theorem visitAll_walk_fold {α : Type} (s : KSrc) (pa : Option Nat) (K : Nat → LProg α)
+    (hK : ∀ a v, walk pa (K a) v = ([], v, K a)) :
+    ∀ (ps : List Nat) (v sm : Nat) (acc : List Ev),
+      (visitAll s false pa ps v sm acc).1.filterMap visitOf =
+        acc.filterMap visitOf ++ (walk pa (visitFold (sumG s) ps sm K) v).1.map (fun ip => (ip.1, s.valAt ip.2)) ∧
+      (visitAll s false pa ps v sm acc).2.1 = (walk pa (visitFold (sumG s) ps sm K) v).2.1 ∧
+      (((visitAll s false pa ps v sm acc).2.2.2 = none ∧
+          (walk pa (visitFold (sumG s) ps sm K) v).2.2 = K (visitAll s false pa ps v sm acc).2.2.1) ∨
+       ((visitAll s false pa ps v sm acc).2.2.2 ≠ none ∧ (walk pa (visitFold (sumG s) ps sm K) v).2.2 = .panic "closure"))
+  | [], v, sm, acc => by simp [visitAll, visitFold, hK]
+  | p :: ps, v, sm, acc => by
+    have ih := visitAll_walk_fold s pa K hK ps (v + 1) (add64 sm (s.valAt p))
+      (acc ++ cloneEvs s [p] ++ [Ev.visit none (s.valAt p)])
+    simp only [visitAll, visitFold, walk, sumG]
+    by_cases hp : pa = some v
+    · simp [hp, List.filterMap_append, cloneEvs_no_visit, visitOf]
+    · simp only [hp, ↓reduceIte, Bool.false_eq_true]
+      obtain ⟨h1, h2, h3⟩ := ih
+      refine ⟨?_, h2, h3⟩
+      rw [h1]
+      simp [List.filterMap_append, cloneEvs_no_visit, visitOf]
+
+theorem walk_specFold {ρ : Type} (len n : Nat) (g : Nat → Nat → Nat) (pa : Option Nat) (fuel a v : Nat) :
+    walk pa (specFold (ρ := ρ) len n g fuel a) v = ([], v, specFold len n g fuel a) := by
+  cases fuel <;> rfl
+
+/-- **one step of the model's `fold` loop is one node of the source's fold tree** (`fold_is_model_loop`): same closure calls,
+and the accumulator the model carries to its next step (the wrapping sum of the payloads seen so far) is the accumulator
+the tree goes on with; when the pull finds the end the thread is back at `.idle` -/
+theorem fold_step_is_tree_node (s : KSrc) (t : Nat) (c : Cfg) (o : SOp) (visits sum n : Nat) (pa : Option Nat)
+    (hpc : (c.th t).pc = .loop o visits sum) (hlp : loopParams o.op = some (n, false, pa, true)) (fuel : Nat) :
+    let cv := c.ctr o.slot
+    let c' := (step s t c).1
+    let evs := (step s t c).2
+    if cv < s.len then
+      let r := walk pa (visitFold (sumG s) (pulled s.len n cv) sum (specFold (ρ := Unit) s.len n (sumG s) fuel)) visits
+      evs.filterMap visitOf = r.1.map (fun ip => (ip.1, s.valAt ip.2)) ∧
+      ((∃ sum', (c'.th t).pc = .loop o r.2.1 sum' ∧ r.2.2 = specFold s.len n (sumG s) fuel sum') ∨
+       ((c'.th t).pc = .dead ∧ r.2.2 = .panic "closure"))
+    else (c'.th t).pc = .idle ∧ evs.filterMap visitOf = [] := by
+  intro cv c' evs
+  have hsa : stepAtom (c.th t) = some (o.slot, if n = 1 then Atom.one else Atom.many n) := by
+    simp [stepAtom, hpc, hlp]
+  have hstep : step s t c = stepRest s t c (applyAtom s.len c t o.slot (if n = 1 then Atom.one else Atom.many n)) := by
+    simp [step, hsa]
+  by_cases hcv : cv < s.len
+  · simp only [hcv, ↓reduceIte]
+    have hva := visitAll_walk_fold (α := Flow Unit Nat) s pa (specFold s.len n (sumG s) fuel)
+      (fun a v => walk_specFold s.len n (sumG s) pa fuel a v) (pulled s.len n cv) visits sum []
+    have hcv' : c.ctr o.slot < s.len := hcv
+    unfold pulled at hva ⊢
+    rcases hr : visitAll s false pa (rangeList (if n = 1 then cv else (pullRange s.len cv n).1)
+      (if n = 1 then cv + 1 else (pullRange s.len cv n).2)) visits sum [] with ⟨ev0, v0, s0, p0⟩
+    rw [hr] at hva
+    obtain ⟨h1, h2, h3⟩ := hva
+    simp only [List.filterMap_nil, List.nil_append] at h1 h2 h3
+    have hr' : visitAll s false pa (rangeList (if n = 1 then c.ctr o.slot else (pullRange s.len (c.ctr o.slot) n).1)
+      (if n = 1 then c.ctr o.slot + 1 else (pullRange s.len (c.ctr o.slot) n).2)) visits sum [] = (ev0, v0, s0, p0) := hr
+    have hdrop : ∀ l, (dropEvs s l).filterMap visitOf = [] := by
+      intro l; unfold dropEvs; split <;> simp [visitOf, List.filterMap_map, Function.comp_def]
+    have hf : ∀ l o' a b, visitOf (Ev.faa l o' a b) = none := fun _ _ _ _ => rfl
+    have hpn : ∀ m, visitOf (Ev.panic m) = none := fun _ => rfl
+    rcases h3 with ⟨hn, hk⟩ | ⟨hn, hk⟩
+    · subst hn
+      refine ⟨?_, Or.inl ⟨s0, ?_, hk⟩⟩
+      · show (step s t c).2.filterMap visitOf = _
+        rw [hstep]
+        simp [stepRest, hpc, hlp, hcv', hr', List.filterMap_append, List.filterMap_cons, hf, h1]
+      · show ((step s t c).1.th t).pc = _
+        rw [hstep]
+        by_cases ho : s.owning <;> simp [stepRest, hpc, hlp, hcv', hr', ho, setTh, ← h2]
+    · cases p0 with
+      | none => exact absurd rfl hn
+      | some rl =>
+        refine ⟨?_, Or.inr ⟨?_, hk⟩⟩
+        · show (step s t c).2.filterMap visitOf = _
+          rw [hstep]
+          simp [stepRest, hpc, hlp, hcv', hr', List.filterMap_append, List.filterMap_cons, hf, hpn, h1, hdrop]
+        · show ((step s t c).1.th t).pc = _
+          rw [hstep]
+          by_cases ho : s.owning <;> simp [stepRest, hpc, hlp, hcv', hr', ho, setTh]
+  · simp only [hcv, ↓reduceIte]
+    have hcv' : ¬ c.ctr o.slot < s.len := hcv
+    constructor
+    · show ((step s t c).1.th t).pc = _
+      rw [hstep]; simp [stepRest, hpc, hlp, hcv', setTh]
+    · show (step s t c).2.filterMap visitOf = _
+      rw [hstep]; simp [stepRest, hpc, hlp, hcv', visitOf]
+
 end Orx.KS
